@@ -303,3 +303,116 @@ def rdisc_facts_transfer(resp_vars, check_bad_rsp_names=("check_bad_rsp",)):
                 add |= {("nonnone", X), ("noerr", X), ("good", X)}
         return state | add if add else state
     return transfer, edge
+
+
+# ---------------------------------------------------------------------------
+def response_class_of(world, cls):
+    """The Response class attached to command class `cls` (ClassInfo) or
+    None."""
+    r = cls.lookup("response")
+    if r is None:
+        return None
+    owner, kind, node = r
+    if kind != "attr":
+        return None
+    if isinstance(node, ast.Constant) and node.value is None:
+        return None
+    b = world.resolve(owner.mod, node)
+    if b is not None and b.kind == "class":
+        return b.value
+    # nested / same-module class referenced by bare name inside class body
+    if isinstance(node, ast.Name):
+        b = world.lookup(owner.mod, node.id)
+        if b is not None and b.kind == "class":
+            return b.value
+    return None
+
+
+def check_rdisc(run, world, modname, fq, cfg, ys, mod, rule="R-RDISC",
+                extra_good_calls=("check_bad_rsp",)):
+    """Every use of a sent-in response that needs a clean backward frame is
+    dominated by a None test and an .error test (or an accepted idiom)."""
+    resp_vars = {y.target for y in ys if y.target and not y.is_from}
+    if not resp_vars:
+        return 0
+    yesno = set()
+    for X in resp_vars:
+        cl = [y.cls for y in ys if y.target == X]
+        if cl and all(c is not None and (lambda rc: rc is not None and any(
+                getattr(k, "qname", "") == "dali.command.YesNoResponse"
+                for k in rc.mro))(response_class_of(world, c)) for c in cl):
+            yesno.add(X)
+    transfer, edge0 = rdisc_facts_transfer(resp_vars, extra_good_calls)
+
+    def edge(src, label, dst, st):
+        st = edge0(src, label, dst, st)
+        if src.kind == "test" and label in ("T", "F"):
+            e = src.ast
+            for X in yesno:
+                # YesNoResponse.value is True exactly when a frame arrived
+                pol = None
+                if _is_attr_chain(e, [X, "value"]):
+                    pol = True
+                elif isinstance(e, ast.Compare) and len(e.ops) == 1 and \
+                        _is_attr_chain(e.left, [X, "value"]) and isinstance(
+                            e.comparators[0], ast.Constant) and \
+                        e.comparators[0].value is True:
+                    if isinstance(e.ops[0], (ast.Is, ast.Eq)):
+                        pol = True
+                    elif isinstance(e.ops[0], (ast.IsNot, ast.NotEq)):
+                        pol = False
+                if pol is not None and (label == "T") == pol:
+                    st = st | {("nonnone", X)}
+        return st
+    IN = forward(cfg, transfer, must=True, edge_transfer=edge)
+    ybind = {y.node.id: y for y in ys if y.target and not y.is_from}
+
+    def tdefs(node, st):
+        y = ybind.get(node.id)
+        if y is not None:
+            st = frozenset(f for f in st if f[0] != y.target) | {
+                (y.target, y.name)}
+        return st
+    DEFS = forward(cfg, tdefs, must=False)
+
+    def src_of(n, X):
+        return "|".join(sorted(f[1] for f in DEFS.get(n.id, ()) if
+                               f[0] == X)) or "?"
+    n_sites = 0
+    for n in cfg.reachable:
+        if n.ast is None or n.kind not in ("stmt", "test", "for"):
+            continue
+        st = IN.get(n.id)
+        if st is None:
+            continue
+        a = n.ast.iter if n.kind == "for" else n.ast
+        for X in resp_vars:
+            for (what, node) in response_uses(a, X):
+                n_sites += 1
+                ok = ("nonnone", X) in st and ("noerr", X) in st
+                missing = [k for k in ("nonnone", "noerr")
+                           if (k, X) not in st]
+                run.ob(rule, "%s#%s<-%s.%s" % (fq, X, src_of(n, X), what), ok,
+                       "%s.%s is used without a dominating %s check: a "
+                       "missing answer or a framing error is read as data"
+                       % (X, what, " and ".join(
+                           {"nonnone": "`raw_value is None`",
+                            "noerr": "`raw_value.error`"}[m]
+                           for m in missing)),
+                       "%s:%s" % (mod.relpath, n.lineno),
+                       sample={"rule": rule, "use": unparse(node),
+                               "line": n.lineno, "facts": sorted(
+                                   map(str, st))})
+            # X.raw_value.error needs a frame
+            for sub in _walk_no_nested(a):
+                if _is_attr_chain(sub, [X, "raw_value", "error"]):
+                    # the test that establishes it may be this very node in
+                    # an `a or b` chain - conditions are split, so IN holds
+                    ok = ("nonnone", X) in st
+                    n_sites += 1
+                    run.ob(rule, "%s#%s<-%s.raw_value.error" % (
+                        fq, X, src_of(n, X)), ok,
+                           "%s.raw_value.error is read where %s.raw_value "
+                           "may be None" % (X, X),
+                           "%s:%s" % (mod.relpath, n.lineno))
+    return n_sites
